@@ -78,6 +78,21 @@ def generate(rng, tier):
     if rng.random() < 0.2:
         # the native runner hands one configuration to every doctest of the module: flags a
         # doctest switches on for itself are not the next doctest's flags
+        first = True
+        for dtid, dt, mod in W.iter_doctests(world):
+            steps = dt['steps']
+            if first:
+                first = False
+                base = max(st['i'] for st in steps) + 1
+                steps.insert(0, {'i': base, 'form': 'directive', 'pts': [], 'ps2': False, 'sep': 'none',
+                                 'dirs': [['+', 'IGNORE_EXCEPTION_DETAIL', None]]})
+                if len(steps) > 1:
+                    steps[1]['sep'] = 'none'
+            else:
+                for st in steps:
+                    if (st.get('want') or '') in ('tb', 'tbstack', 'tbbare', 'tbdots') and not st.get('inline') and rng.random() < 0.6:
+                        st['want'] = rng.choice(['tbwrongmsg', 'tbdetail'])
+            gen.fix_chunk_starts(steps)
         op = {'op': 'runner', 'target': world['modules'][0]['relpath'], 'command': 'all', 'verbose': rng.choice([0, 1, 3]),
               'config': {'default_runtime_state': dict(defaults or {'NORMALIZE_WHITESPACE': True})}}
         ops.append(op)
